@@ -71,7 +71,7 @@ where
         )?;
     }
 
-    writeln!(writer, "    let url = \"{action}\";")?;
+    writeln!(writer, "    let url = {:?};", action.as_str())?;
     if operation.output.is_some() {
         writeln!(writer, "    helpers::send_soap_request(url, credentials, req).await")?;
     } else {
@@ -103,7 +103,7 @@ where
     }
     let namespaces = xmlns
         .iter()
-        .map(|(k, v)| format!("\"{k}\" = \"{v}\""))
+        .map(|(k, v)| format!("\"{k}\" = {v:?}"))
         .collect::<Vec<String>>()
         .join(", ");
 
